@@ -716,6 +716,40 @@ def gen_reorder_cycle_program(rng):
     return p, steps
 
 
+def gen_cycle_after_query_program(rng):
+    """Directed family for C07: a chain of requires top -> ... -> mid; mid requires a generator, READS the generated resource (the
+    hidden-dependency check is a transitive-reachability query that walks part of the graph) and then requires a closer, which
+    (always, or only when a source says so) requires a task further up the chain: a cycle of length >= 3 whose diagnosis has to run
+    right after that query.  Variants: position of the read, several reads, where the cycle closes, a first build without the cycle."""
+    p = Prog(); p.kind = 'inject'; p.exact_only = True
+    p.sources = [0]
+    k = rng.randint(1, 3)                       # chain 0 -> 1 -> ... -> k (= mid)
+    mid, gen, closer = k, k + 1, k + 2
+    g = 10
+    for t in range(k):
+        p.tasks[t] = ('Q', t + 1, 0, ('T', ('a',)))
+    back = rng.randrange(0, k + 1) if rng.random() < 0.7 else 0
+    tail = ('Q', closer, 0, ('T', ('a',)))
+    body = ('R', g, 0, tail)
+    if rng.random() < 0.4: body = ('R', g, 0, ('R', 0, 0, tail))
+    if rng.random() < 0.2: body = tail if rng.random() < 0.5 else ('Q', closer, 0, ('R', g, 0, ('T', ('a',))))
+    p.tasks[mid] = ('Q', gen, 0, body)
+    p.tasks[gen] = ('W', g, 0, ('k', 7), ('T', ('k', 1)))
+    cond = rng.random() < 0.5
+    if cond:
+        p.tasks[closer] = ('R', 0, 0, ('I', ('l', 2), ('Q', back, 0, ('T', ('a',))), ('T', ('k', 3))))
+    else:
+        p.tasks[closer] = ('Q', back, 0, ('T', ('a',)))
+    p.generated = {g: (gen, 0)}
+    steps = [['E', '0', '0' if cond else '1']]
+    root = rng.randrange(0, k + 1)
+    steps.append(['S', '1', 'q', str(root)])
+    if cond:
+        steps.append(['E', '0', '1']); steps.append(['S', '1', 'q', str(rng.randrange(0, k + 1))])
+        steps.append(['E', '0', '0']); steps.append(['S', '1', 'q', str(root)])
+    return p, steps
+
+
 def gen_same_session_program(rng):
     """Directed family for C05/C06 (implementation only: the model's session ends at the first abort): a build of a session is
     aborted after a task read (or wrote) a resource; the SAME session is then used for another build in which a different task
